@@ -63,9 +63,20 @@ def parsers_in(repo: Repo, fi: FuncInfo) -> dict[str, ParserModel]:
             r = repo.dotted_name(n.value.func, fi.module, fi)
             if r == "argparse.ArgumentParser" and len(n.targets) == 1 and isinstance(n.targets[0], ast.Name):
                 models[n.targets[0].id] = ParserModel(n.targets[0].id, n.value)
+    # plain copies of a parser variable (p2 = parser) denote the same object
+    alias: dict[str, str] = {}
+    changed = True
+    while changed:
+        changed = False
+        for n in walk_no_nested(fi.node):
+            if isinstance(n, ast.Assign) and isinstance(n.value, ast.Name) and len(n.targets) == 1 and isinstance(n.targets[0], ast.Name):
+                src = alias.get(n.value.id, n.value.id)
+                if src in models and n.targets[0].id not in models and alias.get(n.targets[0].id) != src:
+                    alias[n.targets[0].id] = src
+                    changed = True
     for n in walk_no_nested(fi.node):
         if isinstance(n, ast.Call) and isinstance(n.func, ast.Attribute) and isinstance(n.func.value, ast.Name):
-            pm = models.get(n.func.value.id)
+            pm = models.get(alias.get(n.func.value.id, n.func.value.id))
             if pm is None:
                 continue
             if n.func.attr == "add_argument":
